@@ -129,6 +129,7 @@ FUNCS = {
     "kitem_bump": lambda k: k.with_v(getattr(k, "v", 0) + 1),
     "kitem_rekey": lambda k: k.with_k(k.k + "x"),
     "kitem_rekey_a": lambda k: k.with_k("a"),
+    "kitem_key": lambda k: k.k,  # hands back the item's key (a value of the KEY type where an item is expected)
 }
 
 GOOD_FNS = {
@@ -161,7 +162,7 @@ BAD_FNS = {
     "dict_int": ["with_badval", "with_badkey", "zero"],
     "set_int": ["add_s", "zero"],
     "leaf": ["zero", "none"],
-    "kitem": ["zero", "none"],
+    "kitem": ["zero", "none", "kitem_key"],
 }
 FUNCS["neg_one"] = lambda x: -1
 FUNCS["inc_odd"] = lambda x: (x // 2) * 2 + 1
@@ -214,6 +215,9 @@ DEFAULT_PROFILE = {
     "allow_mutable_props": False,
     "allow_bad_defaults": False,
     "p_sub": 0.35,
+    "allow_foreign_defaults": False,
+    "allow_leaf_inv": False,
+    "allow_post_init_keep": False,
     "allow_two_levels": True,
 }
 
@@ -259,6 +263,13 @@ def gen_class_spec(src, profile=None):
             a["flags"]["do_not_copy"] = True
         if p["allow_init_false"] and src.chance(0.06) and a["default"][0] != "none":
             a["flags"]["init"] = False
+        if p["allow_foreign_defaults"] and kind in ("klist", "kset", "list_leaf", "list_kitem") \
+                and a["default"][0] != "none" and a["flags"].get("init") is not False and src.chance(0.3):
+            # the default spelled in another container type than the declared one (a plain list for a KeyedList /
+            # KeyedSet, a tuple for a List): the constructor rebuilds it into the declared container
+            val = a["default"][1]
+            if isinstance(val, list) and len(val) == 2:
+                a["default"][1] = ["list" if kind in ("klist", "kset") else "tuple", val[1]]
         if src.chance(0.08):
             a["flags"]["repr"] = False
         if src.chance(0.08):
@@ -326,13 +337,19 @@ def gen_class_spec(src, profile=None):
                 host["props"][-1]["returns"] = src.choice(["summary", "fresh", "alias"])
     if p["allow_hooks"]:
         host["post_init"] = src.chance(0.2)
+        if p["allow_post_init_keep"] and src.chance(0.3):
+            # __post_init__ keeps a copy of the instance under construction, made by one of the routes that copy
+            host["post_init"] = "keep"
+            host["post_init_route"] = src.choice(["deepcopy", "reset", "update", "transform", "with"])
         host["post_copy"] = src.chance(0.25)
     if p["allow_new_shapes"] and src.chance(0.5):
         # where instance creation comes from: the class's own __new__, a plain base class providing it, a plain
         # mix-in in front (nothing of its own), or the mix-in in front of the base that provides it
         host["new_shape"] = src.choice(["own", "base", "mixin", "mixin_base"])
     spec = {
-        "leaf": {"frozen": False, "post_copy": p["allow_hooks"] and src.chance(0.15)},
+        "leaf": {"frozen": False, "post_copy": p["allow_hooks"] and src.chance(0.15),
+                 # the nested class itself has an attribute that another one invalidates (w: int = 10, reset by p)
+                 "inv": bool(p["allow_leaf_inv"] and src.chance(0.5))},
         "kitem": {"frozen": False},
         "host": host,
         "sub": None,
@@ -804,6 +821,10 @@ def materialise(spec, faults, name_suffix=""):
         def leaf_post_copy(self):
             faults.hit("post_copy:leaf")
         lns["__post_copy__"] = leaf_post_copy
+    if spec["leaf"].get("inv"):
+        from spec_classes import Attr as _Attr
+        lns["__annotations__"] = {"w": int, **lns["__annotations__"]}
+        lns["w"] = _Attr(default=10, invalidated_by=["p"])
     Leaf = type("Leaf", (), lns)
     Leaf = spec_class(frozen=bool(spec["leaf"].get("frozen")))(Leaf)
     classes["leaf"] = Leaf
@@ -817,6 +838,8 @@ def materialise(spec, faults, name_suffix=""):
     KItem = spec_class(key="k", frozen=bool(spec["kitem"].get("frozen")))(KItem)
     classes["kitem"] = KItem
     B.attr_info["leaf"] = {"p": {"kind": "int"}, "q": {"kind": "str"}, "notes": {"kind": "list_str"}}
+    if spec["leaf"].get("inv"):
+        B.attr_info["leaf"]["w"] = {"kind": "int"}
     B.attr_info["kitem"] = {"k": {"kind": "str"}, "v": {"kind": "int"}}
 
     # Host --------------------------------------------------------------
@@ -853,9 +876,26 @@ def materialise(spec, faults, name_suffix=""):
         g = make_getter(faults, pr["name"], pr["reads"], pr.get("returns", "summary"))
         ns[pr["name"]] = spec_property(g, cache=pr["cache"], overridable=pr["overridable"],
                                        invalidated_by=pr["invalidated_by"])
+    B.kept = kept = []
     if h.get("post_init"):
+        route = h.get("post_init_route") if h.get("post_init") == "keep" else None
+        first_attr = h["attrs"][0]["name"] if h["attrs"] else None
+
         def post_init(self):
             faults.hit("post_init:host")
+            if route is None:
+                return
+            import copy as _copy
+            if route == "deepcopy":
+                kept.append(_copy.deepcopy(self))
+            elif route == "reset":
+                kept.append(self.reset())
+            elif route == "update":
+                kept.append(self.update())
+            elif route == "transform":
+                kept.append(self.transform())
+            elif first_attr is not None and first_attr in self.__dict__:
+                kept.append(getattr(self, "with_" + first_attr)(self.__dict__[first_attr]))
         ns["__post_init__"] = post_init
     if h.get("post_copy"):
         def post_copy(self):
